@@ -147,7 +147,9 @@ func (g *xmlGen) pi() *XItem {
 }
 
 func attrVal(g *xmlGen) string {
-	return pick(g.r, []string{"", "1", "v", "a b", "x&y", "<tag>", "it's", "say \"hi\"", "é", "007", " pad "})
+	// (tab, LF, CR in a value are written as character references - see escAttr -, which must SURVIVE: only literal
+	// white space is normalised by an XML processor)
+	return pick(g.r, []string{"", "1", "v", "a b", "x&y", "<tag>", "it's", "say \"hi\"", "é", "007", " pad ", "a\tb", "x\ny", "\r", " \n "})
 }
 
 func (g *xmlGen) elem(scope map[string]string, depth int) *XItem {
@@ -349,6 +351,9 @@ func (g *xmlGen) doc(enc string) []*XItem {
 func escAttr(s string, q byte) string {
 	s = strings.ReplaceAll(s, "&", "&amp;")
 	s = strings.ReplaceAll(s, "<", "&lt;")
+	s = strings.ReplaceAll(s, "\t", "&#9;")
+	s = strings.ReplaceAll(s, "\n", "&#10;")
+	s = strings.ReplaceAll(s, "\r", "&#13;")
 	if q == '"' {
 		s = strings.ReplaceAll(s, "\"", "&quot;")
 	} else {
